@@ -13,6 +13,7 @@ import shapely
 from symx import env, geo
 from symx.core import And, Iff, Implies, Not, Or, same, close, SymReal, ite, isnan
 from symx.runner import Case, main_run, replay_file
+from symx.snap import snapshot, unchanged
 from harness import pipeline
 
 PROP = 'C06'
@@ -46,15 +47,30 @@ def invalid_cond(P, n):
     return SymBool(pipeline.validity_regions(c)[1])
 
 
-def body(ctx, conv, shape, bounds, as_coords, nan_cells=None, mesh_opts=None, descending=False, extent=True):
+def body(ctx, conv, shape, bounds, as_coords, nan_cells=None, mesh_opts=None, descending=False, extent=True, bounds_first=False, coord_dtype=None):
+    snap_holder = [coord_dtype]
+    try:
+        return _body(ctx, conv, shape, bounds, as_coords, nan_cells, mesh_opts, descending, extent, bounds_first, snap_holder)
+    finally:
+        pass
+
+
+def _body(ctx, conv, shape, bounds, as_coords, nan_cells, mesh_opts, descending, extent, bounds_first, snap_holder):
     from emsarray.exceptions import InvalidPolygonWarning
     P = pipeline.build(ctx, conv, shape, bounds=bounds, as_coords=as_coords, nan_cells=nan_cells,
-                       mesh_opts=mesh_opts, descending=descending)
+                       mesh_opts=mesh_opts, descending=descending, coord_dtype=snap_holder[0])
     cv = P.convention
     N = P.ncells
     ctx.note('config', dict(conv=conv, shape=str(shape), bounds=bounds, as_coords=as_coords))
+    snap = snapshot(P.ds)
     with warnings.catch_warnings(record=True) as caught:
         warnings.simplefilter('always')
+        if bounds_first:
+            # the answers do not depend on the order in which they are asked for
+            try:
+                early_bounds = cv.bounds
+            except ValueError:
+                early_bounds = None     # nothing to bound: every cell is a hole (min of an empty sequence)
         polygons = cv.polygons
     n_invalid_warn = sum(1 for w in caught if issubclass(w.category, InvalidPolygonWarning))
     mask = cv.mask
@@ -90,6 +106,7 @@ def body(ctx, conv, shape, bounds, as_coords, nan_cells=None, mesh_opts=None, de
     ctx.check((n_invalid_warn == 1) == bool(dropped_invalid) and n_invalid_warn <= 1,
               'self-intersecting cells are dropped with exactly one InvalidPolygonWarning')
 
+    ctx.check(unchanged(P.ds, snap), 'building the polygons leaves the dataset as it was')
     if not extent:
         return
     # ---- extent: bounds == bounding box of the polygons that exist --------------
@@ -187,15 +204,29 @@ def cases(tier):
             ('shoc_simple', (2, 2), 'none', True, None, False),
             ('shoc_standard', (2, 2), 'none', False, None, False), ('shoc_standard', (2, 3), 'none', True, ((1, 1), (2, 3)), False),
         ]
-    for conv, shape, bounds, as_coords, nan_cells, desc in cfgs:
+    # bounds asked for before the polygons; one-cell-wide channels (a cell whose two opposite neighbours are missing)
+    cfgs = [c + (False,) for c in cfgs]
+    cfgs += [('cf2d', (1, 3), 'none', True, None, False, True), ('cf2d', (3, 1), 'none', False, None, False, True),
+             ('cf1d', (2, 2), 'none', True, (), False, True), ('shoc_standard', (1, 2), 'none', True, None, False, True)]
+    if not q:
+        cfgs += [('cf2d', (2, 3), 'none', True, None, False, True), ('cf2d', (2, 2), 'stored', True, None, False, True),
+                 ('shoc_simple', (1, 3), 'none', True, None, False, True), ('cf2d', (1, 4), 'none', True, None, False, False)]
+    for conv, shape, bounds, as_coords, nan_cells, desc, bf in cfgs:
         nm = 'all' if nan_cells is None else len(nan_cells)
-        base = f'{conv}:{shape[0]}x{shape[1]}:{bounds}:{"coords" if as_coords else "vars"}:nan{nm}:{"desc" if desc else "asc"}'
-        kw = dict(conv=conv, shape=shape, bounds=bounds, as_coords=as_coords, nan_cells=nan_cells, descending=desc)
+        base = f'{conv}:{shape[0]}x{shape[1]}:{bounds}:{"coords" if as_coords else "vars"}:nan{nm}:{"desc" if desc else "asc"}' + (':bounds-first' if bf else '')
+        kw = dict(conv=conv, shape=shape, bounds=bounds, as_coords=as_coords, nan_cells=nan_cells, descending=desc, bounds_first=bf)
         if conv == 'cf1d':
             # rectangles: validity is exactly "non-zero width and height" - linear, so one pass does everything
             yield Case(base + ':validity+extent', body, dict(kw, extent=True), patches=PM['rect'], max_paths=20000, split=32)
+            if bounds == 'none' and not bf:
+                # the same axes stored in an integer type (see pipeline.int_coord_array)
+                for dt in (('int32',) if q else ('int32', 'int16', 'int64')):
+                    yield Case(base + f':{dt}:validity+extent', body, dict(kw, extent=True, coord_dtype=dt), patches=PM['rect'],
+                               max_paths=20000, split=32)
         else:
-            if bounds == 'stored' or conv == 'shoc_standard':
+            if (bounds == 'stored' or conv == 'shoc_standard') and shape[0] * shape[1] <= 4 + 2 * (conv != 'shoc_standard'):
+                # (shoc_standard 2x3 = 24 symbolic node coordinates: nlsat does not finish within 60 s per query, so
+                # that size gets the extent case only)
                 # derived 2-D bounds (averages with a symbolic divisor) + polynomial validity conditions are
                 # beyond nlsat within the time budget: validity is decided on stored bounds / node grids only
                 yield Case(base + ':validity', body, dict(kw, extent=False), patches=PM['sandwich'], max_paths=20000, split=32, solver=SOLVER)
